@@ -15,6 +15,9 @@ use indicatif::{MultiProgress, ProgressBar, ProgressDrawTarget, ProgressFinish, 
 #[derive(Clone, Debug, PartialEq)]
 pub enum Op {
     Println,
+    /// ProgressBar::println on the last bar from a destructor that runs while its thread unwinds from a
+    /// panic (a guard that logs the failure of its job): the line shows up with the next draw at the latest
+    PrintlnUnwinding,
     AddTick,
     FinishDropFirst,
     TickLast,
@@ -43,6 +46,9 @@ impl Hist for C03x {
     type Op = Op;
 
     fn alphabet(&self, _p: &[Op]) -> Vec<Op> {
+        if self.0 == Clause::Logs {
+            return vec![Op::Println, Op::PrintlnUnwinding, Op::AddTick, Op::FinishDropFirst, Op::TickLast, Op::SwitchT, Op::SwitchU];
+        }
         if self.1 {
             // (a new target that starts with an empty line on a terminal whose cursor the old target left parked
             // on its last row cannot know that: the variant stays on one terminal)
@@ -58,6 +64,9 @@ impl Hist for C03x {
         let mut bars: Vec<ProgressBar> = Vec::new();
         let mut cur = 0usize;
         let mut logs: [Vec<String>; 2] = [vec![], vec![]];
+        // printed while unwinding: due with the next operation that draws on that terminal
+        // (they are held by the MultiProgress, not by the terminal: they come out where the next draw goes)
+        let mut pending: Vec<String> = vec![];
         let mut n = 0usize;
         // prefix of every bar ever added; finished+dropped bars: (prefix, terminal it was finished on, a line was printed there since)
         let mut names: Vec<String> = Vec::new();
@@ -85,6 +94,24 @@ impl Hist for C03x {
                         if f.1 == cur {
                             f.2 = true;
                         }
+                    }
+                }
+                Op::PrintlnUnwinding => {
+                    if let Some(b) = bars.last() {
+                        struct Guard(ProgressBar, String);
+                        impl Drop for Guard {
+                            fn drop(&mut self) {
+                                self.0.println(&self.1);
+                            }
+                        }
+                        let t = format!("L{n}");
+                        let g = Guard(b.clone(), t.clone());
+                        let _ = std::panic::catch_unwind(std::panic::AssertUnwindSafe(move || {
+                            let _g = g;
+                            panic!("job failed");
+                        }));
+                        pending.push(t);
+                        n += 1;
                     }
                 }
                 Op::AddTick => {
@@ -120,6 +147,17 @@ impl Hist for C03x {
                     base = spies[1].doc().len();
                 }
             });
+            // an operation that draws on the current terminal also brings out the lines held back there
+            let draws = match op {
+                Op::Println => true,
+                Op::AddTick => added_now,
+                Op::TickLast | Op::FinishDropFirst => had_bars,
+                _ => false,
+            };
+            if draws && r.is_ok() {
+                let mut p = std::mem::take(&mut pending);
+                logs[cur].append(&mut p);
+            }
             if let Err(p) = r {
                 std::mem::forget(bars);
                 return Verdict::Bad(Violation { class: format!("panic: {}", panic_class(&p)), config: self.cfg_name(), history: shown[..(i + 1).saturating_sub(2).min(shown.len())].to_vec(), detail: p });
